@@ -5,6 +5,7 @@ import (
 	"crypto/sha256"
 	"encoding/binary"
 	"fmt"
+	"verifharness/dirtysw"
 
 	"github.com/Eyevinn/mp4ff/bits"
 	"github.com/Eyevinn/mp4ff/mp4"
@@ -16,6 +17,7 @@ type LibOpt struct {
 	BoxTree     bool // encode the decrypted file with EncModeBoxTree (decrypt side only)
 	Separate    bool // init segment and media segments handled as separate files
 	Extract     bool // Separate only: protection data re-read from the encrypted init with ExtractInitProtectData
+	EncodeSW    bool // serialise with File.EncodeSW (slice writer over caller-owned storage) instead of File.Encode
 	// RotateKeys > 0: key rotation. The key is a parameter of every EncryptFragment and
 	// DecryptSegment/DecryptFragment call; with rotation, fragment number g of the file
 	// (0-based, counted over all segments in file order) is encrypted and decrypted with
@@ -115,7 +117,18 @@ func decode(b []byte, sr bool) (*mp4.File, error) {
 	return mp4.DecodeFile(bytes.NewReader(b))
 }
 
-func encodeFile(f *mp4.File) ([]byte, error) {
+func encodeFile(f *mp4.File, sw bool) ([]byte, error) {
+	if sw {
+		// File.EncodeSW into caller-owned storage that is not zero-filled
+		w := dirtysw.New(int(f.Size()) + 4096)
+		if err := f.EncodeSW(w); err != nil {
+			return nil, err
+		}
+		if err := w.AccError(); err != nil {
+			return nil, err
+		}
+		return w.Bytes(), nil
+	}
 	var buf bytes.Buffer
 	if err := f.Encode(&buf); err != nil {
 		return nil, err
@@ -132,7 +145,7 @@ func Reencode(b []byte, o LibOpt) ([]byte, error) {
 	if o.BoxTree {
 		f.FragEncMode = mp4.EncModeBoxTree
 	}
-	return encodeFile(f)
+	return encodeFile(f, o.EncodeSW)
 }
 
 // EncOut is the encoded result of an encryption.
@@ -192,7 +205,7 @@ func EncryptLib(c *Case, cfg Config, o LibOpt) (*EncOut, error) {
 		if o.Rot != nil {
 			o.Rot.Fragments = g
 		}
-		b, err := encodeFile(f)
+		b, err := encodeFile(f, o.EncodeSW)
 		if err != nil {
 			return nil, stage("encode-encrypted", err)
 		}
@@ -206,7 +219,7 @@ func EncryptLib(c *Case, cfg Config, o LibOpt) (*EncOut, error) {
 	if err != nil {
 		return nil, stage("InitProtect", err)
 	}
-	encInit, err := encodeFile(fi)
+	encInit, err := encodeFile(fi, o.EncodeSW)
 	if err != nil {
 		return nil, stage("encode-encrypted-init", err)
 	}
@@ -240,7 +253,7 @@ func EncryptLib(c *Case, cfg Config, o LibOpt) (*EncOut, error) {
 		if o.Rot != nil {
 			o.Rot.Fragments = g
 		}
-		b, err := encodeFile(fm)
+		b, err := encodeFile(fm, o.EncodeSW)
 		if err != nil {
 			return nil, stage("encode-encrypted-segment", err)
 		}
@@ -273,7 +286,7 @@ func DecryptLib(init, media []byte, key []byte, o LibOpt) (decInit, decMedia []b
 		if o.BoxTree {
 			f.FragEncMode = mp4.EncModeBoxTree
 		}
-		b, err := encodeFile(f)
+		b, err := encodeFile(f, o.EncodeSW)
 		if err != nil {
 			return nil, nil, stage("encode-decrypted", err)
 		}
@@ -287,7 +300,7 @@ func DecryptLib(init, media []byte, key []byte, o LibOpt) (decInit, decMedia []b
 	if err != nil {
 		return nil, nil, stage("DecryptInit", err)
 	}
-	decInit, err = encodeFile(fi)
+	decInit, err = encodeFile(fi, o.EncodeSW)
 	if err != nil {
 		return nil, nil, stage("encode-decrypted-init", err)
 	}
@@ -301,7 +314,7 @@ func DecryptLib(init, media []byte, key []byte, o LibOpt) (decInit, decMedia []b
 	if o.BoxTree {
 		fm.FragEncMode = mp4.EncModeBoxTree
 	}
-	decMedia, err = encodeFile(fm)
+	decMedia, err = encodeFile(fm, o.EncodeSW)
 	if err != nil {
 		return nil, nil, stage("encode-decrypted-media", err)
 	}
